@@ -564,7 +564,22 @@ where
                     header.len = Length::UNDEFINED;
                 }
 
-                let token = DataToken::from(header);
+                // the kind of value decides the kind of start token,
+                // so that a data set sequence or pixel fragment sequence
+                // held under another VR (e.g. a sequence created under UN)
+                // is still emitted as a sequence
+                let token = match elem.value() {
+                    Value::Sequence(_) => DataToken::SequenceStart {
+                        tag: header.tag,
+                        len: if options.force_invalidate_sq_length {
+                            Length::UNDEFINED
+                        } else {
+                            header.len
+                        },
+                    },
+                    Value::PixelSequence(_) => DataToken::PixelSequenceStart,
+                    Value::Primitive(_) => DataToken::from(header),
+                };
                 match token {
                     DataToken::SequenceStart { tag, len } => {
                         // retrieve sequence value, begin item sequence
